@@ -331,6 +331,8 @@ def render_vmodule(case, cx):
     def site_expr():
         s = sites[pos[0]]
         pos[0] += 1
+        if s.get("kind") == "dc":
+            return f'($out.{s["id"]} = defineComponent((props: {{ a?: string, n: number }}) => () => null))'
         return f'($out.{s["id"]} = {elem(s["elem"], cx)})'
 
     def item_expr(it):
@@ -399,6 +401,8 @@ def render_vmodule(case, cx):
         return out
 
     body = stmts(case["module"], 0)
+    if any(s.get("kind") == "dc" for s in sites):
+        body.insert(0, "import { defineComponent } from 'vue';")
     body.append("export const $all = $out;")
     return body
 
@@ -525,6 +529,8 @@ def render_ts(case):
             head.append("export const unrelated = dc(() => () => null)")
         else:
             raise ValueError("provenance " + prov)
+        # another component defined inside the options of this one (not itself a variable's initialiser)
+        second["nested"] = f"{{ components: {{ Row: {callee}((p: {{ b?: string }}) => () => null) }} }}"
         lines = head + [f"const o: any = {O}", "const e: any = {}", "const mk = (): any => ({ emits: ['x'] })"]
         if shape == "spread_args":
             lines.append(f"const args: [any, any] = [{setup}, {{ props: ['u'] }}]")
@@ -600,7 +606,7 @@ def render_ts(case):
             dflt = "{ [kname]: 'dk', " + ", ".join(parts) + " }"
         else:
             raise ValueError("defaults form " + form)
-        ptype = "{ a?: string, b?: number, cb?: () => void, 'q-k'?: string, z?: boolean, u?: (() => void) | string }"
+        ptype = "{ a?: string, b?: number, cb?: () => void, 'q-k'?: string, z?: boolean, u?: (() => void) | string, 'w'?: number, ['v']?: string }"
         lines += cx.prelude
         lines.append(f"export const C = defineComponent((props: {ptype} = {dflt}) => () => null)")
         return {"case": case["case"], "src": "\n".join(lines) + "\n", "lang": "tsx",
